@@ -36,6 +36,7 @@ type Profile struct {
 	Kinds      []string
 	NoNot      bool
 	FETags     bool // struct fields also carry form/query/env tags
+	PTopSlice  int  // % of top-level schemas that are slices
 	PTopPT     int  // % of top-level structs with PostTransforms even when PPT is 0 (their gate is deterministic)
 	PValid     int  // % of primitive leaves given a value their own schema accepts
 	Repeats    int  // how many times a case is re-run (with reshuffled schema insertion orders and varying pool states)
@@ -380,6 +381,15 @@ func (g *Gen) strct(depth int) *Node {
 
 // Schema generates a top-level schema: mostly structs, sometimes slices / pointers / primitives.
 func (g *Gen) Schema() *Node {
+	if g.R.P(g.P.PTopSlice) {
+		n := &Node{Kind: KSlice, Elem: g.node(1)}
+		if n.Elem.Kind == KPre || n.Elem.Kind == KCustom {
+			n.Elem = g.prim(Pick(g.R, g.P.Kinds))
+		}
+		g.req(n)
+		g.tests(n)
+		return n
+	}
 	c := g.R.Intn(100)
 	switch {
 	case c < 70:
@@ -441,6 +451,12 @@ func ProfileByName(name string) Profile {
 		p.PLayout = 50
 		p.PPrefill = 50
 		p.PExtra = 60
+	case "C08":
+		p.PTopSlice = 25
+		p.PPT = 10
+		p.PDefault = 35
+		p.PCatch = 30
+		p.PSlice = 30
 	case "C19":
 		p.PDefault = 45
 		p.PSlice = 35
